@@ -1211,6 +1211,19 @@ class EventBus:
             # Cancel the monitor task on timeout too
             monitor_task.cancel()
 
+            # A TimeoutError that the handler raised itself (e.g. from its own asyncio.wait_for() / asyncio.timeout())
+            # is an ordinary handler error, not the event timeout enforced by the wait_for() above:
+            # record the original exception object and leave the event's children alone
+            handler_raised_it = handler_task is None or (
+                handler_task.done() and not handler_task.cancelled() and handler_task.exception() is e
+            )
+            if handler_raised_it:
+                event.event_result_update(handler=handler, eventbus=self, error=e)
+                logger.error(
+                    f'❌ {self} Error in event handler {get_handler_name(handler)}({event}) -> \n{type(e).__name__}({e})\n{_log_filtered_traceback(e)}',
+                )
+                raise
+
             # Create a RuntimeError for timeout
             children = (
                 f' and interrupted any processing of {len(event.event_children)} child events' if event.event_children else ''
